@@ -155,7 +155,34 @@ class _InfSpelling(ast.NodeTransformer):
         return node
 
 
+class _FlipCompare(ast.NodeTransformer):
+    """a < b -> b > a, a == b -> b == a (single comparisons; equal meaning)"""
+    FLIP = {ast.Lt: ast.Gt, ast.Gt: ast.Lt, ast.LtE: ast.GtE, ast.GtE: ast.LtE, ast.Eq: ast.Eq, ast.NotEq: ast.NotEq}
+
+    def visit_Compare(self, node):
+        self.generic_visit(node)
+        if len(node.ops) == 1 and type(node.ops[0]) in self.FLIP:
+            return ast.Compare(node.comparators[0], [self.FLIP[type(node.ops[0])]()], [node.left])
+        return node
+
+
+class _CommuteAdd(ast.NodeTransformer):
+    """a + b -> b + a for numeric additions (string concatenations left alone)"""
+
+    def visit_BinOp(self, node):
+        self.generic_visit(node)
+        if isinstance(node.op, ast.Add):
+            for side in (node.left, node.right):
+                if isinstance(side, (ast.JoinedStr, ast.List, ast.Tuple)) or (
+                        isinstance(side, ast.Constant) and isinstance(side.value, str)):
+                    return node
+            return ast.BinOp(node.right, ast.Add(), node.left)
+        return node
+
+
 TWINS = {
+    "flip-comparisons": (lambda t: _FlipCompare().visit(t), ("solvers", "penalties", "datafits", "utils")),
+    "commute-sums": (lambda t: _CommuteAdd().visit(t), ("penalties", "datafits", "utils")),
     "rename-locals": (lambda t: _RenameLocals().visit(t), ("solvers", "penalties", "datafits", "utils", "estimators.py", "experimental")),
     "commute-products": (lambda t: _CommuteMult().visit(t), ("penalties", "datafits")),
     "invert-if-else": (lambda t: _InvertIf().visit(t), ("solvers", "penalties")),
